@@ -33,6 +33,8 @@ type DocScript struct {
 		Dst []int `json:"dst"`
 	} `json:"runs"`
 	RTTs        []int       `json:"rtts"`
+	DPort       *int        `json:"dport"`   // destination port of every run (default 33434; 0: ICMP has no ports)
+	RTTDiv      int         `json:"rtt_div"` // samples are rtts[i] / rtt_div milliseconds (0/1: whole milliseconds): sub-microsecond parts
 	Enrich      bool        `json:"enrich"`
 	SkipPrivate bool        `json:"skip_private"`
 	DNS         wire.StrMap `json:"dns"`       // address string -> behaviour (see dnsAnswer); "a;b": first call a, later calls b; "+<ms>:x": x after a delay
@@ -135,8 +137,15 @@ func runDocInner(t *testing.T, s *Scenario) []wire.Event {
 	defer func() { reversedns.LookupAddrFn = oldLookup }()
 
 	res := &result.Results{Protocol: "udp"}
+	dport := uint16(33434)
+	if ds.DPort != nil {
+		dport = uint16(*ds.DPort)
+		if dport == 0 {
+			res.Protocol = "icmp"
+		}
+	}
 	for _, r := range ds.Runs {
-		run := result.TracerouteRun{Destination: result.TracerouteDestination{IPAddress: ipOf(r.Dst), Port: 33434},
+		run := result.TracerouteRun{Destination: result.TracerouteDestination{IPAddress: ipOf(r.Dst), Port: dport},
 			Source: result.TracerouteSource{IPAddress: net.IPv4(10, 77, 0, 1).To4(), Port: 40000}}
 		for i, h := range r.Hops {
 			run.Hops = append(run.Hops, &result.TracerouteHop{TTL: i + 1, IPAddress: ipOf(h.B), RTT: float64(h.RTT), IsDest: h.Dest})
@@ -144,6 +153,10 @@ func runDocInner(t *testing.T, s *Scenario) []wire.Event {
 		res.Traceroute.Runs = append(res.Traceroute.Runs, run)
 	}
 	for _, x := range ds.RTTs {
+		if ds.RTTDiv > 1 {
+			res.E2eProbe.RTTs = append(res.E2eProbe.RTTs, float64(x)/float64(ds.RTTDiv))
+			continue
+		}
 		res.E2eProbe.RTTs = append(res.E2eProbe.RTTs, float64(x))
 	}
 	w.LogEvent("Params", "variant", "doc", "entry", "doc", "strict", false, "min", 0, "max", 0, "timeout_us", 0, "delay_us", 0, "poll_us", 0,
@@ -211,10 +224,27 @@ func runDocInner(t *testing.T, s *Scenario) []wire.Event {
 	}
 	mu.Unlock()
 	w.LogEvent("Return", "ok", panicked == "", "panic", panicked, "err", errInfo(nil), "has_result", true,
-		"doc", milli("", tree1), "doc2", milli("", tree2), "rt_equal", reflect.DeepEqual(tree1, tree2) && len(j1) > 0, "keys", keys, "ids", ids, "dns_calls", dc,
+		"doc", milli("", tree1), "doc2", milli("", tree2), "rt_equal", reflect.DeepEqual(tree1, tree2) && len(j1) > 0, "keys", keys, "ids", ids, "dns_calls", dc, "fine", fineStats(tree1),
 		"hops", []hopOut{}, "src", "", "sport", 0, "dst", "", "dport", 0,
 		"goroutines", 0, "gsample", "", "opened", 0, "closed_once", 0, "bad_handles", []string{}, "accepts", 0)
 	return w.Events()
+}
+
+// fineStats: the published end-to-end statistics in MILLIONTHS of a millisecond (the thousandths of milli() hide anything below 1 us).
+func fineStats(tree any) map[string]int64 {
+	out := map[string]int64{"jitter": 0, "min": 0, "max": 0, "avg": 0}
+	m, _ := tree.(map[string]any)
+	e, _ := m["e2e_probe"].(map[string]any)
+	r, _ := e["rtt"].(map[string]any)
+	f := func(v any) int64 {
+		x, _ := v.(float64)
+		if x > 2000 {
+			x = 2000
+		}
+		return int64(math.Round(x * 1e6))
+	}
+	out["jitter"], out["min"], out["max"], out["avg"] = f(e["jitter"]), f(r["min"]), f(r["max"]), f(r["avg"])
+	return out
 }
 
 // runDocStress: G goroutines finish N result documents each at the same time (what concurrent requests of the HTTP server do);
